@@ -3,6 +3,7 @@ package props
 import (
 	"fmt"
 	"math/rand"
+	"strings"
 
 	bexpr "github.com/hashicorp/go-bexpr"
 
